@@ -65,10 +65,13 @@ VARIABLES
     rej,     \* sequence of rejected (restarted) step attempts (records)
     stats,   \* set of statistics entries written by the hooks
     nblk,    \* number of blocks started so far
+    consec,  \* number of consecutive blocks that ended with a restart of their FIRST step (C09 retry budget)
     hist     \* history of consumed oracle records (GEN only; hidden by VIEW in MC)
 
-vars == <<phase, nact, time, dt, st, carry, acc, rej, stats, nblk, hist>>
-view == <<phase, nact, time, dt, st, carry, acc, rej, stats, nblk>>
+vars == <<phase, nact, time, dt, st, carry, acc, rej, stats, nblk, consec, hist>>
+view == <<phase, nact, time, dt, st, carry, acc, rej, stats, nblk, consec>>
+\* the history-like variables (accepted / rejected steps, statistics) hidden: for invariants over the core state
+viewCore == <<phase, nact, time, dt, st, consec>>
 
 -----------------------------------------------------------------------------
 (* Per-step state.  uv/zv/uev/resv/src are *versions*: uv[p][l] counts the   *)
@@ -436,6 +439,7 @@ NewTimes(tm, d, i) == IF i >= nact THEN tm ELSE NewTimes([tm EXCEPT ![i] = tm[i 
 
 AccRec(p, s) == [t |-> time[p], dt |-> dt[p], niter |-> s.iter[p], nit |-> s.nit[p], slot |-> p,
                  riar |-> s.riar[p], blk |-> nblk,
+                 nosweep |-> ~ s.swept[p] /\ ~ s.fdone[p] /\ s.iter[p] < MAXITER,
                  chained |-> IF p = 0 THEN TRUE
                              ELSE s.src[p][0] = <<p - 1, EndVer(s, p - 1, 0)>> /\ s.uev[p - 1][0] = EndVer(s, p - 1, 0),
                  endok |-> s.uev[p][0] = EndVer(s, p, 0)]
@@ -454,6 +458,7 @@ Init ==
     /\ rej = <<>>
     /\ stats = {}
     /\ nblk = 0
+    /\ consec = 0
     /\ hist = <<>>
 
 RunStart ==
@@ -468,7 +473,7 @@ RunStart ==
              ELSE /\ phase' = "run"
                   /\ st' = RestartBlock(st, n)
                   /\ nblk' = 1
-    /\ UNCHANGED <<dt, carry, acc, rej, stats, hist>>
+    /\ UNCHANGED <<dt, carry, acc, rej, stats, consec, hist>>
 
 AllDone == \A p \in Active : st.done[p]
 
@@ -498,8 +503,12 @@ StageStepWith(orc) ==
     IN /\ st' = nx
        /\ phase' = IF nx.err = "none" THEN "run" ELSE nx.err
        /\ stats' = IF sg = "IT_CHECK" /\ nx.err = "none" THEN StatsAfterCheck(stats, st, nx) ELSE stats
-       /\ hist' = IF HIST /\ sg = "IT_CHECK" THEN Append(hist, orc) ELSE hist
-       /\ UNCHANGED <<nact, time, dt, carry, acc, rej, nblk>>
+       /\ hist' = IF HIST /\ sg = "IT_CHECK"
+                  THEN hist \o [i \in 1 .. Cardinality(DOMAIN orc) |->
+                                LET p == Asc(DOMAIN orc)[i] IN
+                                <<p, orc[p].res, orc[p].rs, orc[p].dtn, orc[p].fd, orc[p].fc>>]
+                  ELSE hist
+       /\ UNCHANGED <<nact, time, dt, carry, acc, rej, nblk, consec>>
 
 \* one call of controller.pfasst()
 StageStep ==
@@ -508,9 +517,18 @@ StageStep ==
     /\ LET R == Running(st) IN
        IF ~ StagesEqual(st) THEN
             /\ phase' = "stageerr"
-            /\ UNCHANGED <<nact, time, dt, st, carry, acc, rej, stats, nblk, hist>>
+            /\ UNCHANGED <<nact, time, dt, st, carry, acc, rej, stats, nblk, consec, hist>>
        ELSE IF StageOf(st) # "IT_CHECK" THEN StageStepWith(NoOracle(R))
-       ELSE \E orc \in [R -> OracleRec] : OrcExact(orc) /\ StageStepWith(OrcAbs(orc))
+       ELSE \E orc \in [R -> OracleRec] :
+                /\ OrcExact(orc)
+                \* reductions (model checking only): choices that cannot influence the successor are fixed
+                /\ \A p \in R : (st.iter[p] >= MAXITER => ~ orc[p].res) /\ (st.rs[p] => ~ orc[p].rs)
+                                 /\ (st.fdone[p] => ~ orc[p].fd)
+                \* reduction: a step-size proposal is overwritten at every check, so only the one made at a
+                \* check at which the step can finish is ever read; proposals elsewhere are not explored
+                /\ \A p \in R : orc[p].dtn # 0 => Converged([st EXCEPT !.fdone[p] = @ \/ orc[p].fd, !.fcont[p] = orc[p].fc],
+                                                           p, orc[p].res)
+                /\ StageStepWith(OrcAbs(orc))
 
 \* block end of controller.run()
 BlockEnd ==
@@ -528,8 +546,9 @@ BlockEnd ==
            n    == NumActive(tm1)
        IN IF ~ exact
           THEN /\ phase' = "offlattice"
-               /\ UNCHANGED <<nact, time, dt, st, carry, acc, rej, stats, nblk, hist>>
+               /\ UNCHANGED <<nact, time, dt, st, carry, acc, rej, stats, nblk, consec, hist>>
           ELSE
+            /\ consec' = IF ra = 0 THEN consec + 1 ELSE 0
             /\ carry' = IF ra < nact THEN <<"ustart", Len(acc) + ra>> ELSE <<"uend", Len(acc) + nact>>
             /\ acc' = acc \o newacc
             /\ rej' = rej \o newrej
@@ -553,11 +572,8 @@ Spec == Init /\ [][Next]_vars
 NextGen == RunStart \/ StageStep \/ BlockEnd
 GenSpec == Init /\ [][NextGen]_vars
 \* the consumed oracle records in consumption order: per IT_CHECK pass, running slots ascending
-HistSeq ==
-    LET one(q, h) == q \o [i \in 1 .. Cardinality(DOMAIN h) |->
-                            LET p == Asc(DOMAIN h)[i] IN
-                            [s |-> p, res |-> h[p].res, rs |-> h[p].rs, dtn |-> h[p].dtn, fd |-> h[p].fd, fc |-> h[p].fc]]
-    IN FoldLeft(one, <<>>, hist)
+HistSeq == [i \in 1 .. Len(hist) |-> [s |-> hist[i][1], res |-> hist[i][2], rs |-> hist[i][3], dtn |-> hist[i][4],
+                                      fd |-> hist[i][5], fc |-> hist[i][6]]]
 GenPrint == Terminal => PrintT(ToJson([gen |-> TRUE, ph |-> phase, nacc |-> Len(acc), nrej |-> Len(rej), script |-> HistSeq]))
 
 FairSpec == Spec /\ WF_vars(RunStart \/ StageStep \/ BlockEnd)
@@ -603,7 +619,7 @@ NiterFaithful == \A i \in 1 .. Len(acc) : acc[i].niter = acc[i].nit
 ResidualFresh == InRun => \A p \in Active : (st.stage[p] = "DONE") => st.resv[p] = FullVer(st, p, 0)
 EndPointFresh == \A i \in 1 .. Len(acc) : acc[i].endok
 \* clause "after at least one sweep": reported separately (suspected deviation)
-DoneAfterSweep == \A i \in 1 .. Len(acc) : acc[i].niter > 0 \/ MAXITER = 0
+DoneAfterSweep == \A i \in 1 .. Len(acc) : ~ acc[i].nosweep
 
 \* ---- C06: tiling and chaining ----
 TileStart == Len(acc) > 0 => acc[1].t = T0
@@ -630,7 +646,8 @@ KeepEarlier == TRUE   \* by construction of BlockEnd; bound by trace validation
 RECURSIVE CountTrailing(_, _, _)
 CountTrailing(q, t, i) == IF i = 0 \/ q[i].t # t \/ q[i].slot # 0 THEN 0 ELSE 1 + CountTrailing(q, t, i - 1)
 RejectedFirst == SelectSeq(rej, LAMBDA r : r.slot = 0)
-RetryBudget == \A i \in 1 .. Len(RejectedFirst) : RejectedFirst[i].riar < MAXR
+RetryBudget == consec <= MAXR
+RetryBudgetRiar == \A i \in 1 .. Len(RejectedFirst) : RejectedFirst[i].riar < MAXR
 CrashOnlyAfterBudget == phase = "crashed" => (CRASH /\ st.riar[0] >= MAXR)
 
 \* ---- C14: statistics ----
